@@ -73,7 +73,7 @@ def units_for(prop):
             '    for u in mod.UNITS:\n'
             '        out.append({"module":m,"name":u.name,"fn":u.fn,"props":list(u.props),"trusted":bool(u.trusted),'
             '"deferred":bool(getattr(u,"deferred",False)),"note":getattr(u,"note",""),"tier":getattr(u,"tier","quick"),'
-            '"parallel":bool(getattr(u,"parallel",False)),"bounded":bool(getattr(u,"bounded",False)),'
+            '"parallel":bool(getattr(u,"parallel",False)),"bounded":bool(getattr(u,"bounded",False)),"timeout_ms":getattr(u,"timeout_ms",None),'
             '"quick_props":list(getattr(u,"quick_props",None) or u.props)})\n'
             'print(json.dumps(out))')
     r = subprocess.run([PYVT, '-c', code], capture_output=True, text=True, env=e, cwd=HERE)
@@ -147,7 +147,10 @@ def run_unit(u, budget, scale=1):
     solver budget); verdicts are memoised under out/cache by the digest of exactly those inputs, so that the properties
     sharing a unit do not re-prove it within one session. VERIF_NO_CACHE=1 disables the memo."""
     import hashlib
-    key = hashlib.sha256(f"{source_hash(u['module'])}|{u['module']}|{u['name']}|{scale}|{env().get('PYVC_TIMEOUT_MS')}".encode()).hexdigest()[:32]
+    # a unit with its own solver budget does not depend on the tier's default budget: its every-change verdict is reused
+    # by the thorough tier
+    tmo_key = '10000' if (u.get('timeout_ms') and u.get('tier') != 'thorough') else env().get('PYVC_TIMEOUT_MS')
+    key = hashlib.sha256(f"{source_hash(u['module'])}|{u['module']}|{u['name']}|{scale}|{tmo_key}".encode()).hexdigest()[:32]
     cpath = os.path.join(OUT, 'cache', key + '.json')
     if not os.environ.get('VERIF_NO_CACHE') and os.path.exists(cpath):
         try:
